@@ -122,6 +122,12 @@ func evaluate(sc *Scenario, out *RunResult, prog Program) {
 			if serves == rets {
 				sc.violate("C03", "running-after-shutdown", fmt.Sprintf("callback %s was still running when Shutdown returned", cb), nil)
 			}
+		case "qe.nil", "qe.nilend":
+			if serves == rets {
+				what := map[string]string{"qe.nil": "started after Shutdown had returned", "qe.nilend": "was still running when Shutdown returned"}[e.Point]
+				sc.violate("C03", map[string]string{"qe.nil": "start-after-shutdown", "qe.nilend": "running-after-shutdown"}[e.Point],
+					fmt.Sprintf("the final callback of query event %s %s", argS(e, 0), what), nil)
+			}
 		case "sd.begin":
 			sdBegin = e.Seq
 			if e.Role == "sd" {
